@@ -41,13 +41,17 @@ func msgFlavoursOf(mt protoreflect.MessageType) []msgFlavour {
 	de := msgDepthExact(mt)
 	return []msgFlavour{
 		{de, msgLegacyReach(md), "gen", md, func() protoreflect.Message { return mt.New() }, false},
-		{de, false, "dyn", md, func() protoreflect.Message { return dynamicpb.NewMessage(md) }, true},
+		{true, false, "dyn", md, func() protoreflect.Message { return dynamicpb.NewMessage(md) }, true},
 	}
 }
 
 func msgUnmarshal(fl msgFlavour, b []byte, limit int, nolazy bool) (protoreflect.Message, error) {
 	m := fl.new()
-	err := proto.UnmarshalOptions{AllowPartial: true, RecursionLimit: limit, NoLazyDecoding: nolazy}.Unmarshal(b, m.Interface())
+	o := proto.UnmarshalOptions{AllowPartial: true, RecursionLimit: limit, NoLazyDecoding: nolazy}
+	if fl.slow {
+		o.Resolver = msgDynTypes()
+	}
+	err := o.Unmarshal(b, m.Interface())
 	return m, err
 }
 
@@ -131,6 +135,11 @@ func msgRoundTrip(c *Ctx, fl msgFlavour, m protoreflect.Message) {
 			m2, err := msgUnmarshal(fl, b, 0, nolazy)
 			what := fmt.Sprintf("%s %s opts=%d nolazy=%v", fl.name, fl.md.FullName(), oi, nolazy)
 			if err != nil {
+				if fl.slow && msgErrClass(err) == "e1" && msgFB3Class(fl.md, b) {
+					c.Known("FB3", "C03", "reflection path: ConsumeGroup budget exhausted by unknown groups nested in a known group")
+					c.Stat("known_FB3")
+					continue
+				}
 				c.PropFail("C03", "Unmarshal(Marshal(m)) fails: "+msgErrClass(err)+" "+what, HexB(b))
 				continue
 			}
@@ -231,12 +240,10 @@ func msgSizeChecks(c *Ctx, fl msgFlavour, m protoreflect.Message) {
 		}
 		if oi != 1 {
 			// same content up to map order: it must decode to an equal message
-			m2 := fl.new()
 			if msgLegacyReach(fl.md) && msgFB1Class(fl.md, out[plen:]) {
 				continue // finding FB1 (reported under C03)
 			}
-			if err := (proto.UnmarshalOptions{AllowPartial: true, NoLazyDecoding: true}).Unmarshal(out[plen:], m2.Interface()); err != nil ||
-				!proto.Equal(m.Interface(), m2.Interface()) {
+			if m2, err := msgUnmarshal(fl, out[plen:], 0, true); err != nil || !proto.Equal(m.Interface(), m2.Interface()) {
 				c.PropFail("C04", "MarshalAppend output does not decode to m: "+what, HexB(out))
 			}
 		}
@@ -320,7 +327,7 @@ func msgOneValue(c *Ctx, fl msgFlavour, id string, depth int) {
 	}
 	for i, in := range inputs {
 		limit := 0
-		if i > 0 && fl.depthExact && c.Intn(5) == 0 {
+		if i > 0 && c.Intn(5) == 0 {
 			limit = 1 + c.Intn(5)
 		}
 		for _, f2 := range all {
@@ -328,7 +335,11 @@ func msgOneValue(c *Ctx, fl msgFlavour, id string, depth int) {
 				c.Stat("dec_skipped_legacy")
 				continue
 			}
-			msgDecCase(c, f2, id, in, limit)
+			if f2.depthExact {
+				msgDecCase(c, f2, id, in, limit)
+			} else {
+				msgDecCase(c, f2, id, in, 0)
+			}
 		}
 	}
 }
@@ -371,8 +382,91 @@ func msgCorpus(c *Ctx) {
 	}
 }
 
+// msgDeepCorpus: nesting at the recursion limit.
+func msgDeepCorpus(c *Ctx) {
+	var tat protoreflect.MessageType
+	for _, mt := range msgAllTypes() {
+		if mt.Descriptor().FullName() == "goproto.proto.test.TestAllTypes" {
+			tat = mt
+		}
+	}
+	if tat == nil {
+		c.PropFail("C03", "corpus type not linked: goproto.proto.test.TestAllTypes")
+		return
+	}
+	fls := msgFlavoursOf(tat)
+	id := msgSchemaOf(c, tat.Descriptor())
+	// FB3: optionalgroup (field 16) holding an unknown group (field 1000) nested 10001 deep
+	deep := c.Intn(3) == 0 // the expensive boundary cases run in about a third of the shards
+	for _, levels := range []int{10000, 10001} {
+		if levels == 10000 && !deep {
+			continue
+		}
+		var u []byte
+		for i := 0; i < levels; i++ {
+			u = protowire.AppendTag(u, 1000, protowire.StartGroupType)
+		}
+		for i := 0; i < levels; i++ {
+			u = protowire.AppendTag(u, 1000, protowire.EndGroupType)
+		}
+		gfd := tat.Descriptor().Fields().ByNumber(16)
+		for _, fl := range fls {
+			m := fl.new()
+			m.Mutable(gfd).Message().SetUnknown(u)
+			msgRoundTrip(c, fl, m)
+			if b, err := msgDetOpts.Marshal(m.Interface()); err == nil && (deep || c.Intn(2) == 0) {
+				msgDecCase(c, fl, id, b, 0) // 40 kB, nested 10001 deep: costly for the extracted model
+			}
+		}
+	}
+	// nesting at the recursion limit L (levels = number of nested messages, the top-level one
+	// included): chains TestAllTypes -(18)-> NestedMessage -(2)-> TestAllTypes ..., the same
+	// through map entries (71: map<string, NestedMessage>; an entry costs one more level) and
+	// through groups (16: optionalgroup -(1000)-> NestedMessage -(2)-> TestAllTypes).
+	wrap := func(num protowire.Number, b []byte) []byte {
+		nb := protowire.AppendTag(make([]byte, 0, len(b)+8), num, protowire.BytesType)
+		return protowire.AppendBytes(nb, b)
+	}
+	for _, L := range []int{1, 2, 3, 4, 7, 50, 100} {
+		for _, levels := range []int{L - 1, L, L + 1} {
+			if levels < 1 {
+				continue
+			}
+			// (a) plain sub-messages
+			var b []byte
+			for i := 1; i < levels; i++ {
+				if (levels-i)%2 == 0 {
+					b = wrap(2, b)
+				} else {
+					b = wrap(18, b)
+				}
+			}
+			// (b) through map entries: TestAllTypes -(71 entry)-(2)-> NestedMessage -(2)-> TestAllTypes
+			var mb []byte
+			for used := 1; used+3 <= levels; used += 3 {
+				mb = wrap(71, wrap(2, wrap(2, mb)))
+			}
+			// (c) through groups
+			var gb []byte
+			for used := 1; used+3 <= levels; used += 3 {
+				inner := wrap(1000, wrap(2, gb))
+				gb = protowire.AppendTag(nil, 16, protowire.StartGroupType)
+				gb = append(gb, inner...)
+				gb = protowire.AppendTag(gb, 16, protowire.EndGroupType)
+			}
+			for _, fl := range fls {
+				msgDecCase(c, fl, id, b, L)
+				msgDecCase(c, fl, id, mb, L)
+				msgDecCase(c, fl, id, gb, L)
+			}
+		}
+	}
+	_ = deep
+}
+
 func famMsg(c *Ctx) {
 	msgCorpus(c)
+	msgDeepCorpus(c)
 	types := msgAllTypes()
 	c.StatN("linked_types", len(types))
 	// budget: c.N random contents in total; every linked type gets at least one per run when
